@@ -15,7 +15,7 @@ struct Verdicts {
 	std::map<std::string, Verdict> first;     // property id -> first violation
 	void fail(const std::string &prop, const std::string &sig, const std::string &why)
 	{
-		if (!first.count(prop)) first[prop] = Verdict{sig, why};
+		if (!first.count(prop)) { first[prop] = Verdict{sig, why}; if (getenv("VERIF_TRACE")) fprintf(stderr, "%.6f   VERDICT %s %s: %s\n", sim::W.now / 1e6, prop.c_str(), sig.c_str(), why.c_str()); }
 	}
 	bool failed(const std::string &prop) const { return first.count(prop) != 0; }
 };
@@ -27,6 +27,7 @@ struct Credit {
 	bool answered = false;
 	int user = -1;          // session the ping/data query names, -1 otherwise
 	bool pingdata = false;
+	bool forgotten = false; // the session sent a raw-mode frame afterwards: the server replaces its stored query, a DNS query still waiting is dropped, not held
 };
 
 // Everything that can be judged at the wire for one real server (+ real clients)
